@@ -7,12 +7,14 @@ import (
 	"verifharness/lib/hx"
 )
 
-var connName = map[string]string{"src": "KSrc", "dst": "KDst", "dlq": "KDlq", "proc": "KProc"}
+// the second destination of a fan-out pipeline is a destination like the first for the model and the monitors
+// (they count the branches of a pass, they do not name them); the JSON log keeps the names
+var connName = map[string]string{"src": "KSrc", "dst": "KDst", "dst2": "KDst", "dlq": "KDlq", "proc": "KProc"}
 var kindName = map[string]string{"start": "KStart", "stop": "KStop", "force": "KForce", "stopwait": "KStopWait", "stopall": "KStopAll", "wait": "KWait"}
 var className = map[string]string{"nil": "CNil", "running": "CRunning", "notrunning": "CNotRunning", "force": "CForce",
 	"exhausted": "CExhausted", "fatal": "CFatal", "transient": "CTransient", "timeout": "CTimeout"}
 var pointName = map[string]string{"src.read": "PSrcRead", "dst.write": "PDstWrite", "dlq.write": "PDlqWrite", "proc.do": "PProcDo",
-	"src.td": "PSrcTd", "dst.td": "PDstTd", "dlq.td": "PDlqTd"}
+	"src.td": "PSrcTd", "dst.td": "PDstTd", "dlq.td": "PDlqTd", "dst2.write": "PDstWrite", "dst2.td": "PDstTd"}
 var phaseName = map[string]string{"free": "PhFree", "final": "PhFinal", "restart": "PhRestart", "end": "PhEnd"}
 
 // RenderCfg renders the configuration of a case as a Coq term of type lcfg.
@@ -21,7 +23,7 @@ func RenderCfg(c Cfg) string {
 	if c.Engine == "v2" {
 		eng = "V2"
 	}
-	return fmt.Sprintf("(mkLcfg %s %s %d %d %s %s %s %s)", eng, hx.Bool(c.Proc), c.DLQSize, c.DLQThr,
+	return fmt.Sprintf("(mkLcfg %s %s %d %d %d %s %s %s %s)", eng, hx.Bool(c.Proc), max(1, c.Dests), c.DLQSize, c.DLQThr,
 		"("+hx.Z(int64(c.MaxRetries))+")", hx.Z(int64(c.MinUs)), hx.Z(int64(c.MaxUs)), hx.Z(int64(c.WindowUs)))
 }
 
